@@ -375,8 +375,8 @@ impl Property for C13 {
     }
     fn runs(&self, tier: Tier) -> u64 {
         match tier {
-            Tier::Quick => 6_000,
-            Tier::Thorough => 300_000,
+            Tier::Quick => 100_000,
+            Tier::Thorough => 3_000_000,
         }
     }
     fn gen(&self, run_seed: u64, _tier: Tier) -> Value {
